@@ -69,7 +69,7 @@ def case_st(draw):
             vals[j] = draw(st.sampled_from(["inf", "-inf"]))
     spec = {"dims": dims, "labels": labels, "vk": vk, "vals": vals, "attrs": {"units": "K", "h": [1]}}
     case = {"mode": mode, "spec": spec, "ax": ax, "axis_form": draw(st.sampled_from(["name", "pos"])), "new": draw(points(labels[ax])),
-            "left": draw(st.sampled_from(["nan", "nan", -77.0])), "right": draw(st.sampled_from(["nan", "nan", 88.0])),
+            "left": draw(st.sampled_from(["nan", "nan", -77.0, 0, 0.0])), "right": draw(st.sampled_from(["nan", "nan", 88.0, 0, 0.0])),
             "issorted": draw(st.sampled_from([None, None, True])), "new_as": draw(st.sampled_from(["list", "array"]))}
     if mode == "like":
         # template: new coordinates for a subset of dims (+ an unrelated dim)
